@@ -82,6 +82,22 @@ def files(ctx: Ctx):
                                          **({'p_no_op': 1.0, 'p_revcomp': 0.7, 'p_pam': 1.0, 'p_gtf': 1.0, 'n_pam': [2, 3, 4]} if i % 3 == 0 else {})))
                for i in range(n)]
     designs += [gen.gen_cdna(ctx.rng, {}) for _ in range(n // 4)]
+    # a deliberate class (own generator state): PAM protection edits exactly on the first and the last base of a targeton that is its own
+    # context (no annotation): both are inside, both are applied
+    import random
+    r2 = random.Random(f'C01-edge-edits-{ctx.seed}')
+    for _ in range(max(6, n // 10)):
+        d = gen.gen_sge(r2, {'p_bg': 0.0, 'p_gtf': 0.0, 'p_pam': 1.0, 'p_custom': 0.3, 'allow_junction_pam': False, 'p_softmask': 0.3})
+        U = d['ref'].upper()
+        for t in d['targetons']:
+            ids = t.get('sgrna') or []
+            if not ids:
+                continue
+            for q in (t['ref_start'], t['ref_end']):
+                if not any(abs(e['pos'] - q) < 1 for e in d.get('pam') or []) and not any(r['pos'] - 1 <= q <= r['pos'] + len(r['ref']) for f in d.get('vcfs') or [] for r in f['records']):
+                    d.setdefault('pam', []).append({'pos': q, 'ref': U[q - 1], 'alt': r2.choice([c for c in 'ACGT' if c != U[q - 1]]), 'sgrna': ids[0]})
+        d['pam'] = sorted(d.get('pam') or [], key=lambda e: e['pos'])
+        designs.append(d)
     results = rowcheck.run_designs(designs)
     rowcheck.model_rows(ctx, results, 'sequence columns', fields=['ref', 'mseq_no_adapt', 'mseq', 'oligo_length'])
     exprs, meta = [], []
